@@ -1,7 +1,7 @@
 From Coq Require Import List NArith Bool.
 From V.C10 Require Import Model.
 From V.Mgr Require Import DialShape DialShapeProofs Model Caps Ledger LedgerInv.
-From V.Tcp Require Model Proofs Theorems.
+From V.Tcp Require Model Proofs Theorems Variants VariantTheorems Once.
 Import ListNotations.
 Open Scope N_scope.
 From V.C05 Require Import Properties.
@@ -177,3 +177,151 @@ Check (C05_tcp_outbound_ids_from_owner :
 Check (C05_tcp_caller_ok_needed :
   exists es, Tcp.Theorems.callers_ok Tcp.Model.init Tcp.Model.g0 es = false /\
              In [Tcp.Model.OMark (Tcp.Model.MNoHandle 0)] (snd (Tcp.Theorems.run Tcp.Model.init es))).
+Check (C05_tr_refines_model :
+  forall t s g,
+  Tcp.VariantTheorems.treach t s g -> Tcp.Theorems.reach s g).
+Check (C05_tr_refines_model_any_owner :
+  forall t s g,
+  Tcp.VariantTheorems.treachU t s g -> Tcp.Theorems.reachU s g).
+Check (C05_tr_dial_result :
+  forall t s g c a,
+  Tcp.VariantTheorems.treachU t s g ->
+  snd (Tcp.Variants.tstep t s (Tcp.Variants.XDial c a)) = [Tcp.Model.ORet (match Tcp.Variants.expect_of t a with Some _ => true | None => false end)]).
+Check (C05_tr_open_result :
+  forall t s c l,
+  snd (Tcp.Variants.tstep t s (Tcp.Variants.XOpen c l)) = [Tcp.Model.ORet true]).
+Check (C05_ws_url_parse :
+  forall a p,
+  Tcp.Variants.ws_url a = Some p -> exists ho port, C10.Model.parse V.C10.Model.TWs a = Some (ho, port, Some p)).
+Check (C05_tcp_accepts_manager_shape :
+  forall a q,
+  Tcp.Variants.manager_tcp_shape a q -> Tcp.Variants.expect_of V.C10.Model.TTcp a = Some (Some q)).
+Check (C05_ws_accepts_manager_shape :
+  forall a q,
+  Tcp.Variants.manager_ws_shape a q -> Tcp.Variants.expect_of V.C10.Model.TWs a = Some (Some q)).
+Check (C05_quic_accepts_manager_shape :
+  forall a q,
+  Tcp.Variants.manager_quic_shape a q -> Tcp.Variants.expect_of V.C10.Model.TQuic a = Some (Some q)).
+Check (C05_tr_accepts_supported :
+  forall cfg a,
+  C10.Model.supported cfg a = true ->
+  exists q, last a (C10.Model.Other 0) = C10.Model.P2p q /\ Tcp.Variants.expect_of (C10.Model.route cfg a) a = Some (Some q)).
+Check (C05_tcp_dial_accepts_manager_addresses :
+  forall listen a q,
+  DialShape.dial_shape listen a = DialShape.SvTcp q -> Tcp.Variants.expect_of V.C10.Model.TTcp a = Some (Some q)).
+Check (C05_ws_dial_accepts_manager_addresses :
+  forall listen a q,
+  DialShape.dial_shape listen a = DialShape.SvWs q -> Tcp.Variants.expect_of V.C10.Model.TWs a = Some (Some q)).
+Check (C05_tr_open_phase_owed :
+  forall t s g k o1 e o2,
+  Tcp.VariantTheorems.treachU t s g -> snd (Tcp.Variants.tstep t s k) = o1 ++ Tcp.Model.OEv e :: o2 ->
+  match e with
+  | Tcp.Model.TOpened c | Tcp.Model.TOpenFailure c =>
+      In c (Tcp.Model.g_open (fold_left Tcp.Model.gout o1 (Tcp.Model.gcall (Tcp.Variants.ev_of t k) (snd (Tcp.Variants.tstep t s k)) g)))
+  | _ => True
+  end).
+Check (C05_tr_call_results :
+  forall t s g k,
+  Tcp.VariantTheorems.treachU t s g -> Tcp.Model.call_ok (Tcp.Variants.ev_of t k) g (snd (Tcp.Variants.tstep t s k)) = true).
+Check (C05_tr_negotiate_after_opened :
+  forall t s g k c,
+  Tcp.VariantTheorems.treachU t s g -> In (Tcp.Model.OEv (Tcp.Model.TOpened c)) (snd (Tcp.Variants.tstep t s k)) ->
+  let s1 := fst (Tcp.Variants.tstep t s k) in
+  snd (Tcp.Variants.tstep t s1 (Tcp.Variants.XEv (Tcp.Model.ENegotiate c))) = [Tcp.Model.ORet true] /\
+  snd (Tcp.Variants.tstep t (fst (Tcp.Variants.tstep t s1 (Tcp.Variants.XEv (Tcp.Model.ECancel c)))) (Tcp.Variants.XEv (Tcp.Model.ENegotiate c))) = [Tcp.Model.ORet true]).
+Check (C05_tr_contract :
+  forall t s g k o1 e o2,
+  Tcp.VariantTheorems.treach t s g -> Tcp.Model.caller_ok g (Tcp.Variants.ev_of t k) = true -> snd (Tcp.Variants.tstep t s k) = o1 ++ Tcp.Model.OEv e :: o2 ->
+  Tcp.Model.tfeas (fold_left Tcp.Model.gout o1 (Tcp.Model.gcall (Tcp.Variants.ev_of t k) (snd (Tcp.Variants.tstep t s k)) g)) e = true).
+Check (C05_tr_established_names_dialled_peer :
+  forall t s g k o1 c q o2,
+  Tcp.VariantTheorems.treach t s g -> Tcp.Model.caller_ok g (Tcp.Variants.ev_of t k) = true ->
+  snd (Tcp.Variants.tstep t s k) = o1 ++ Tcp.Model.OEv (Tcp.Model.TEstablished c q false) :: o2 ->
+  let g' := fold_left Tcp.Model.gout o1 (Tcp.Model.gcall (Tcp.Variants.ev_of t k) (snd (Tcp.Variants.tstep t s k)) g) in
+  In c (Tcp.Model.g_neg g') /\
+  exists es, Tcp.Model.lookup c (Tcp.Model.g_att g') = Some es /\ (exists x, In x es /\ Tcp.Model.matches x q = true) /\
+             forall p, (forall x, In x es -> x = Some p) -> q = p).
+Check (C05_tr_strict_established_is_named_peer :
+  forall t s g k o1 c q o2,
+  Tcp.VariantTheorems.strict t = true ->
+  Tcp.VariantTheorems.treach t s g -> Tcp.Variants.call_plain t k = true -> Tcp.Model.caller_ok g (Tcp.Variants.ev_of t k) = true ->
+  snd (Tcp.Variants.tstep t s k) = o1 ++ Tcp.Model.OEv (Tcp.Model.TEstablished c q false) :: o2 ->
+  exists es, Tcp.Model.lookup c (Tcp.Model.g_att (Tcp.Model.gstep (Tcp.Variants.ev_of t k) (snd (Tcp.Variants.tstep t s k)) g)) = Some es /\ In (Some q) es).
+Check (C05_tr_no_dropped_answer :
+  forall t s g k m,
+  Tcp.VariantTheorems.treach t s g -> Tcp.Model.caller_ok g (Tcp.Variants.ev_of t k) = true -> In (Tcp.Model.OMark m) (snd (Tcp.Variants.tstep t s k)) ->
+  exists c, m = Tcp.Model.MSilentFailure c Tcp.Model.KInb).
+Check (C05_tr_owed_is_pending :
+  forall t s g c,
+  Tcp.VariantTheorems.treach t s g ->
+  (In c (Tcp.Model.g_open g) -> exists f rem, Tcp.Model.lookup f (Tcp.Model.praw s) = Some c /\ Tcp.Model.lookup f (Tcp.Model.attempts s) = Some rem /\
+                                    ~ In f (Tcp.Model.aborted s)) /\
+  (In c (Tcp.Model.g_neg g) -> exists f k, Tcp.Model.lookup f (Tcp.Model.pconn s) = Some (c, k) /\ Tcp.Model.is_inb k = false)).
+Check (C05_tr_progress_open_answer :
+  forall t s g f c rem i e q,
+  Tcp.VariantTheorems.treach t s g -> Tcp.Model.lookup f (Tcp.Model.praw s) = Some c -> In c (Tcp.Model.g_open g) ->
+  Tcp.Model.lookup f (Tcp.Model.attempts s) = Some rem -> Tcp.Model.lookup i rem = Some e -> Tcp.Model.matches e q = true ->
+  In (Tcp.Model.OEv (Tcp.Model.TOpened c)) (snd (Tcp.Variants.tstep t s (Tcp.Variants.XEv (Tcp.Model.EAns f i (Some q)))))).
+Check (C05_tr_progress_open_last_failure :
+  forall t s g f c rem i e ans,
+  Tcp.VariantTheorems.treach t s g -> Tcp.Model.lookup f (Tcp.Model.praw s) = Some c -> In c (Tcp.Model.g_open g) ->
+  Tcp.Model.lookup f (Tcp.Model.attempts s) = Some rem -> Tcp.Model.lookup i rem = Some e -> Tcp.Model.delk i rem = [] ->
+  (forall q, ans = Some q -> Tcp.Model.matches e q = false) ->
+  In (Tcp.Model.OEv (Tcp.Model.TOpenFailure c)) (snd (Tcp.Variants.tstep t s (Tcp.Variants.XEv (Tcp.Model.EAns f i ans))))).
+Check (C05_tr_progress_open_expire :
+  forall t s g f c rem,
+  Tcp.Variants.has_deadline t = true ->
+  Tcp.VariantTheorems.treach t s g -> Tcp.Model.lookup f (Tcp.Model.praw s) = Some c -> In c (Tcp.Model.g_open g) ->
+  Tcp.Model.lookup f (Tcp.Model.attempts s) = Some rem -> rem <> [] ->
+  In (Tcp.Model.OEv (Tcp.Model.TOpenFailure c)) (snd (Tcp.Variants.tstep t s (Tcp.Variants.XEv (Tcp.Model.EExpire f))))).
+Check (C05_tr_progress_open_no_address :
+  forall t s g f c e,
+  Tcp.VariantTheorems.treach t s g -> Tcp.Model.lookup f (Tcp.Model.praw s) = Some c -> In c (Tcp.Model.g_open g) -> Tcp.Model.lookup f (Tcp.Model.attempts s) = Some [] ->
+  Tcp.Model.polls e = true -> In (Tcp.Model.OEv (Tcp.Model.TOpenFailure c)) (snd (Tcp.Variants.tstep t s (Tcp.Variants.XEv e)))).
+Check (C05_tr_progress_dial :
+  forall t s g f c i ans,
+  Tcp.VariantTheorems.treach t s g -> Tcp.Model.lookup f (Tcp.Model.pconn s) = Some (c, Tcp.Model.KDial) ->
+  exists x, Tcp.Model.lookup c (Tcp.Model.g_att g) = Some [x] /\
+    In (Tcp.Model.OEv (match ans with
+             | Some q => if Tcp.Model.matches x q then Tcp.Model.TEstablished c q false else Tcp.Model.TDialFailure c
+             | None => Tcp.Model.TDialFailure c
+             end)) (snd (Tcp.Variants.tstep t s (Tcp.Variants.XEv (Tcp.Model.EAns f i ans))))).
+Check (C05_tr_progress_negotiate :
+  forall t s g f c e,
+  Tcp.VariantTheorems.treach t s g -> Tcp.Model.lookup f (Tcp.Model.pconn s) = Some (c, Tcp.Model.KNeg) -> Tcp.Model.polls e = true ->
+  exists q, In (Tcp.Model.OEv (Tcp.Model.TEstablished c q false)) (snd (Tcp.Variants.tstep t s (Tcp.Variants.XEv e)))).
+Check (C05_tr_progress_inbound :
+  forall t s g f c i q,
+  Tcp.VariantTheorems.treach t s g -> Tcp.Model.lookup f (Tcp.Model.pconn s) = Some (c, Tcp.Model.KInb) ->
+  In (Tcp.Model.OEv (Tcp.Model.TEstablished c q true)) (snd (Tcp.Variants.tstep t s (Tcp.Variants.XEv (Tcp.Model.EAns f i (Some q)))))).
+Check (C05_tr_outbound_ids_from_owner :
+  forall t s g c,
+  Tcp.VariantTheorems.treachU t s g -> In c (Tcp.Model.g_open g) \/ In c (Tcp.Model.g_neg g) \/ In c (Tcp.Model.g_opened g) -> In c (Tcp.Model.g_used g)).
+Check (C05_tr_opened_is_unnegotiated :
+  forall t s g c,
+  Tcp.VariantTheorems.treachU t s g -> (In c (Tcp.Model.opened s) <-> In c (Tcp.Model.g_opened g))).
+Check (C05_tr_opened_leaves_by_negotiate :
+  forall e os g c,
+  In c (Tcp.Model.g_opened g) -> ~ In c (Tcp.Model.g_opened (Tcp.Model.gstep e os g)) -> e = Tcp.Model.ENegotiate c).
+Check (C05_tcp_answers_at_most_once :
+  forall s g h c,
+  Tcp.Once.reachH s g h -> (Tcp.Once.cnt (Tcp.Once.open_ans c) h <= 1)%nat /\ (Tcp.Once.cnt (Tcp.Once.neg_ans c) h <= 1)%nat).
+Check (C05_tcp_owed_not_answered :
+  forall s g h c,
+  Tcp.Once.reachH s g h ->
+  (In c (Tcp.Model.g_open g) -> Tcp.Once.cnt (Tcp.Once.open_ans c) h = 0%nat /\ Tcp.Once.cnt (Tcp.Once.neg_ans c) h = 0%nat /\ ~ In c (Tcp.Model.g_neg g) /\ ~ In c (Tcp.Model.g_opened g)) /\
+  (In c (Tcp.Model.g_neg g) -> Tcp.Once.cnt (Tcp.Once.neg_ans c) h = 0%nat /\ ~ In c (Tcp.Model.g_open g) /\ ~ In c (Tcp.Model.g_opened g))).
+Check (C05_tcp_no_answer_without_call :
+  forall s g h c,
+  Tcp.Once.reachH s g h -> ~ In c (Tcp.Model.g_used g) -> Tcp.Once.cnt (Tcp.Once.open_ans c) h = 0%nat /\ Tcp.Once.cnt (Tcp.Once.neg_ans c) h = 0%nat).
+Check (C05_tr_answers_at_most_once :
+  forall t s g h c,
+  Tcp.Once.treachH t s g h -> (Tcp.Once.cnt (Tcp.Once.open_ans c) h <= 1)%nat /\ (Tcp.Once.cnt (Tcp.Once.neg_ans c) h <= 1)%nat).
+Check (C05_tr_owed_not_answered :
+  forall t s g h c,
+  Tcp.Once.treachH t s g h ->
+  (In c (Tcp.Model.g_open g) -> Tcp.Once.cnt (Tcp.Once.open_ans c) h = 0%nat /\ Tcp.Once.cnt (Tcp.Once.neg_ans c) h = 0%nat /\ ~ In c (Tcp.Model.g_neg g) /\ ~ In c (Tcp.Model.g_opened g)) /\
+  (In c (Tcp.Model.g_neg g) -> Tcp.Once.cnt (Tcp.Once.neg_ans c) h = 0%nat /\ ~ In c (Tcp.Model.g_open g) /\ ~ In c (Tcp.Model.g_opened g))).
+Check (C05_tr_no_answer_without_call :
+  forall t s g h c,
+  Tcp.Once.treachH t s g h -> ~ In c (Tcp.Model.g_used g) -> Tcp.Once.cnt (Tcp.Once.open_ans c) h = 0%nat /\ Tcp.Once.cnt (Tcp.Once.neg_ans c) h = 0%nat).
